@@ -91,6 +91,9 @@ type Harness interface {
 type Config struct {
 	Name  string `json:"name"`
 	Bound int    `json:"bound"` // deviation bound to complete for this config
+	// Reverse: run under the newest-thread-first default scheduler (the
+	// harness passes it on as vrt.Options.Reverse).
+	Reverse bool `json:"reverse"`
 	// Data is harness private (must round-trip through the harness's own
 	// Configs enumeration: only the index is sent to workers).
 	Data interface{} `json:"-"`
@@ -107,4 +110,16 @@ func execOnce(h Harness, cfg Config, devs []Dev, trace bool) (Outcome, *vrt.Resu
 		c.diverged = fmt.Sprintf("divergence: execution ended after %d points, deviation at %d not reached", len(c.pts), c.devs[c.di].At)
 	}
 	return out, res, c
+}
+
+// WithReverse returns cfgs followed by a copy of each that runs under the
+// reversed (newest-thread-first) default scheduler.
+func WithReverse(cfgs []Config) []Config {
+	out := append([]Config{}, cfgs...)
+	for _, c := range cfgs {
+		c.Reverse = true
+		c.Name += " [newest-first]"
+		out = append(out, c)
+	}
+	return out
 }
